@@ -973,6 +973,12 @@ func (f *frame) alloc(x *ssa.Alloc) {
 	name := x.Comment
 	switch u := elem.Underlying().(type) {
 	case *types.Struct:
+		if u.NumFields() == 0 {
+			// empty struct (e.g. binary.LittleEndian's receiver): no identity needed
+			f.setVal(x, sval{e: th.AddrLit(7), typ: x.Type()})
+			f.addName(name, x, sval{e: f.vals[x].e, typ: x.Type()})
+			return
+		}
 		// fresh object
 		obj := t.newTemp("obj", t.objTop())
 		t.cur.Assign(t.objTop(), th.AAdd(t.objTop(), th.AddrLit(1)))
